@@ -76,6 +76,9 @@ def gen_span(rng, m, u, v, cfg, want=None):
     k = m.key(u, v)
     runs = m.runs(k) if m.removal else ([[m.first[k], m.first[k]]] if k in m.first else [])
     o, hz = cfg['origin'], cfg['horizon']
+    ids = m.instants()
+    if ids and abs(ids[0] - o) > 64:
+        o = ids[0]          # replicas rebuilt with compacted timestamps live near their own origin
     length = 1 if rng.random() > cfg['p_span'] else rng.randint(1, 5)
     point = rng.random() > cfg['p_span']
     if not runs:
@@ -271,3 +274,101 @@ def gen_mutate_attr(rng, rep, cfg):
         return {'op': 'mutate_attr', 'kind': 'graph_nested', 'val': rng.randint(0, 99)}
     ns = list(rep.m.nodes) or cfg['nodes']
     return {'op': 'mutate_attr', 'kind': 'node_nested', 'n': rng.choice(ns), 'val': rng.randint(0, 99)}
+
+
+# ------------------------------------------------------------------ I/O
+DELIMS = [None, None, ' ', ',', '\t', ';', '|']
+ENCODINGS = ['utf-8', 'utf-8', 'latin-1', 'ascii', 'cp1252']
+
+
+def gen_restart(rng, rep, cfg, via, faults=False):
+    op = {'op': 'restart', 'via': via}
+    if via == 'json':
+        op['idkey'] = rng.choice(['id', 'id', 'nid'])
+        op['pass_attrs'] = rng.random() < 0.3
+        x = rng.random()
+        if x < 0.25:
+            op['directed_arg'] = rng.random() < 0.5          # key present: the argument must be ignored
+        elif x < 0.45:
+            op['drop_directed_key'] = True
+            op['directed_arg'] = True if (not rep.m.directed and rng.random() < 0.3) else rep.m.directed
+        return op
+    op['target'] = rng.choice(['path', 'path', 'path', 'bytesio', 'simhandle', 'duck'])
+    op['ext'] = rng.choice(['', '', '.gz', '.gzip', '.bz2'])
+    op['delimiter'] = rng.choice(DELIMS)
+    if op['delimiter'] in (' ', '\t') and rng.random() < 0.5:
+        op['read_delimiter'] = None
+    op['encoding'] = rng.choice(ENCODINGS)
+    op['bufsize'] = rng.choice([16, 64, 512, 8192])
+    op['rchunk'] = rng.choice([1, 7, 64, 8192])
+    op['wchunk'] = rng.choice([3, 50, 1 << 30])
+    if op['target'] == 'path' and op['ext'] == '' and rng.random() < 0.25:
+        op['keys'] = True
+    if faults:
+        x = rng.random()
+        if x < 0.4:
+            op['fail_write'] = rng.randint(0, 6)
+            op['errno'] = rng.choice([5, 28])
+        elif x < 0.5:
+            op['fail_close'] = True
+        elif x < 0.9:
+            op['fail_read'] = rng.randint(0, 8)
+    return op
+
+
+def gen_rows(rng, cfg, fmt, directed):
+    """a well-formed row list from a private random history"""
+    from .model import ModelGraph
+    pm = ModelGraph(directed, True)
+    rows = []
+    n = rng.randint(1, 10)
+    if fmt == 'snapshots':
+        for _ in range(n):
+            u, v = pick_pair(rng, pm, cfg)
+            t, e, cls = gen_span(rng, pm, u, v, cfg)
+            pm.apply_add(u, v, t, e)
+            rows.append([u, v, t, e])
+        return rows
+    # interaction log: per pair alternating + / -, merged chronologically
+    for _ in range(n):
+        u, v = pick_pair(rng, pm, cfg)
+        t, e, cls = gen_span(rng, pm, u, v, cfg)
+        pm.apply_add(u, v, t, e)
+    ev = []
+    for k in pm.keys():
+        u, v = pm.pair(k)
+        for a, b in pm.runs(k):
+            ev.append((a, 1, [u, v, '+', a]))
+            if b > a or rng.random() < 0.5:
+                ev.append((b + 1, 0, [u, v, '-', b + 1]))
+    rng.shuffle(ev)
+    ev.sort(key=lambda x: (x[0], x[1]))
+    return [x[2] for x in ev]
+
+
+def gen_parse(rng, cfg):
+    fmt = rng.choice(['snapshots', 'interactions'])
+    directed = rng.random() < 0.5
+    rows = gen_rows(rng, cfg, fmt, directed)
+    op = {'op': 'parse', 'fmt': fmt, 'directed': directed, 'rows': rows, 'delimiter': rng.choice(DELIMS),
+          'nodekind': 'int' if isinstance(cfg['nodes'][0], int) else 'str',
+          'via': rng.choice(['parse', 'read']), 'rchunk': rng.choice([1, 7, 8192]), 'bufsize': rng.choice([16, 8192])}
+    kinds = ['blank', 'spaces', 'tab', 'comment', 'comment-indented', 'short1', 'short2', 'short3-or-5', 'five']
+    op['noise'] = [[rng.randint(0, len(rows)), rng.choice(kinds)] for _ in range(rng.randint(0, 5))]
+    op['deco'] = {str(i): rng.choice(['trail-comment', 'pad', 'pad-tab']) for i in range(len(rows)) if rng.random() < 0.25}
+    x = rng.random()
+    if x < 0.15:
+        op['bad_row'] = rng.randrange(len(rows))
+        op['bad_field'] = rng.choice(['node', 'time']) if op['nodekind'] == 'int' else 'time'
+    elif x < 0.4:
+        op['keys'] = True
+        op['via'] = 'read'
+    return op
+
+
+def gen_compact(rng, cfg):
+    base = rng.choice([0, -50, 10 ** 9])
+    vals = {base + rng.randint(-20, 40) * rng.choice([1, 1, 7]) for _ in range(rng.randint(0, 12))}
+    vals = sorted(vals)
+    rng.shuffle(vals)
+    return {'op': 'compact', 'values': vals}   # finite *sets* of timestamps (the statement's domain)
